@@ -2,7 +2,7 @@
 ID = "C08"
 PROPS = "Props/C08.v"
 COQ_TIMEOUT = 5400   # Coq build of this property incl. rebuilt dependencies; generous: on a loaded machine a rebuild after an upstream edit took > 1500 s
-GEN = ["hssig"]       # scheme tables and the structure of pickSignatureAlgorithm / verifyHandshakeSignature (auth.go, common.go, prf.go)
+GEN = ["hssig", "hstables"]       # scheme tables and the structure of pickSignatureAlgorithm / verifyHandshakeSignature (auth.go, common.go, prf.go)
 LEGS = [{"driver": "c08", "runner": ("hs", "Extract/ExtractHS.v", "Hs_model"), "timeout": 3000}]
 
 TECHNIQUE = ("Coq proofs over symbolic (perfect-cryptography) state machines of the gmtls GMSSL client and of the servers, with a Dolev-Yao network attacker; "
@@ -50,13 +50,13 @@ def _ac_may_complete(attack, auth):
         return False
     if auth == 0:
         return True                      # no CertificateRequest: the script degrades to the honest flow without certificate
-    if attack == "honest_cert":
+    if attack in ("honest_cert", "chain_honest"):
         return True
     if attack == "honest_nocert":
         return auth in (1, 3)
-    if attack in ("untrusted_cert", "expired_cert"):
-        return auth in (1, 2)
-    return False                         # nocertmsg, cv_*
+    if attack in ("untrusted_cert", "expired_cert", "mimic_root_cert"):
+        return auth in (1, 2)            # mimic_root_cert: self-signed, copies subject name and key identifier of the client CA
+    return False                         # nocertmsg, cv_*, chain_key2 (CertificateVerify by the key of a certificate that is not the leaf)
 
 
 def _name_matches(pattern, host):
@@ -132,7 +132,7 @@ def predicate(f, io):
         may = _ac_may_complete(attack, auth)
         if io[0] == "ok" and not may:
             return False, "server with ClientAuth=%d completed although the client script is an attack (%s)" % (auth, attack)
-        if io[0] != "ok" and attack in ("honest_cert",) :
+        if io[0] != "ok" and attack in ("honest_cert", "chain_honest"):
             return False, "control run (honest client with certificate) did not complete"
         return True, ""
     if op == "AN":
